@@ -111,6 +111,21 @@ impl Vars {
     #[verifier::external_body]
     pub fn set_str(&mut self, key: &str, value: String) ensures final(self)@ == old(self)@.insert(key@, jstr(value@)) { unimplemented!() }
 }
+// further Vars / Error API (model/vars.rs, error.rs) so that the unit follows code that builds the return options another way
+pub trait VarVal: Sized { spec fn vv(&self) -> JsonValue; }
+impl VarVal for String { open spec fn vv(&self) -> JsonValue { jstr(self@) } }
+impl Vars {
+    // model/vars.rs: with(name, value) = insert (replacing); extend(other) = every entry of `other` overwrites
+    #[verifier::external_body]
+    pub fn with<V: VarVal>(self, name: &str, value: V) -> (r: Self) ensures r@ == self@.insert(name@, value.vv()) { unimplemented!() }
+    #[verifier::external_body]
+    pub fn extend(self, vars: Vars) -> (r: Self) ensures r@ == self@.union_prefer_right(vars@) { unimplemented!() }
+}
+impl Default for Error {
+    // derive(Default): empty code and message
+    #[verifier::external_body]
+    fn default() -> (r: Self) ensures r.ecode@.len() == 0 && r.message@.len() == 0 { unimplemented!() }
+}
 impl Action {
 //@@ extract file=acts/src/event/action.rs in="impl Action" item="fn new" name=Action::new props=C15
 //@@ opt noghost
